@@ -33,7 +33,10 @@ type mySQLUndoInsertExecutor struct {
 
 // newMySQLUndoInsertExecutor init
 func newMySQLUndoInsertExecutor(sqlUndoLog undo.SQLUndoLog) *mySQLUndoInsertExecutor {
-	return &mySQLUndoInsertExecutor{sqlUndoLog: sqlUndoLog}
+	return &mySQLUndoInsertExecutor{
+		sqlUndoLog:   sqlUndoLog,
+		BaseExecutor: &BaseExecutor{sqlUndoLog: sqlUndoLog, undoImage: sqlUndoLog.AfterImage},
+	}
 }
 
 // ExecuteOn execute insert undo logic
@@ -41,6 +44,14 @@ func (m *mySQLUndoInsertExecutor) ExecuteOn(ctx context.Context, dbType types.DB
 
 	if err := m.BaseExecutor.ExecuteOn(ctx, dbType, conn); err != nil {
 		return err
+	}
+	// never delete a row somebody else has changed since the branch inserted it
+	ok, err := m.BaseExecutor.dataValidationAndGoOn(ctx, conn)
+	if err != nil {
+		return err
+	}
+	if !ok {
+		return nil
 	}
 
 	// build delete sql
